@@ -311,16 +311,19 @@ MUT_OPS = {"PushBack", "PushFront", "PopBack", "PopFront", "Insert", "Set", "Rem
 def vec_nontrivial(prop):
     def polls_after_mut(b):
         ops = [o["op"] for o in b]
-        if "Subscribe" not in ops:
+        if b[0].get("k", 0) > 0:
+            i = 0
+        elif "Subscribe" in ops:
+            i = ops.index("Subscribe")
+        else:
             return False
-        i = ops.index("Subscribe")
         m = [j for j in range(i + 1, len(ops)) if ops[j] in MUT_OPS or ops[j] == "TxnCommit"]
         return bool(m) and "Poll" in ops[m[0] + 1:]
 
     def c06(b):
         # more messages than the capacity between subscribe and a poll
         cap = b[0]["i"]
-        cnt = {}
+        cnt = {s: 0 for s in range(1, b[0].get("k", 0) + 1)}
         for o in b[1:]:
             if o["op"] == "Subscribe":
                 cnt[o["s"]] = 0
@@ -339,7 +342,7 @@ def vec_nontrivial(prop):
 
     def c08(b):
         ops = [o["op"] for o in b]
-        return "DropVector" in ops and "Poll" in ops[ops.index("DropVector"):] and "Subscribe" in ops
+        return "DropVector" in ops and "Poll" in ops[ops.index("DropVector"):] and ("Subscribe" in ops or b[0].get("k", 0) > 0)
 
     def c17(b):
         return sum(1 for o in b if o["op"] in MUT_OPS) >= 2
@@ -387,13 +390,22 @@ def vec_pipeline(prop, tier, seed, work, t0):
     # ---- 2. generation
     beh = os.path.join(work, "beh.ndjson")
     n = 0
-    base = dict(MaxDecs=2, SubIds={1, 2}, MaxLen=2, LagThenClosedLosesState=False)
+    base = dict(MaxDecs=2, SubIds={1, 2}, MaxLen=2, LagThenClosedLosesState=False, InitLens={0}, PreSubs={0})
+    pre = dict(InitLens={2}, PreSubs={2}, MaxLen=4)
     plans = dict(
-        C05=[("SpecStreams", dict(Caps={16}, Depth=5 if quick else 6)), ("SpecTxn", dict(Caps={16}, Depth=5, SubIds={1}))],
+        C05=[("SpecStreams", dict(Caps={16}, Depth=5 if quick else 6)), ("SpecTxn", dict(Caps={16}, Depth=5, SubIds={1})),
+             ("SpecStreamsPre", dict(pre, Caps={16}, Depth=4 if quick else 5, InitLens={3})),
+             ("SpecTxnCore", dict(pre, Caps={16}, Depth=7 if quick else 8))],
         C06=[("SpecStreams", dict(Caps={1, 2}, Depth=5 if quick else 6, MaxLen=2)),
-             ("SpecTxn", dict(Caps={1}, Depth=6 if quick else 7, SubIds={1}, MaxLen=1))],
-        C07=[("SpecTxn", dict(Caps={1, 16}, Depth=5 if quick else 6, SubIds={1}))],
-        C08=[("SpecStreams", dict(Caps={1, 2}, Depth=6 if quick else 7, SubIds={1}, MaxLen=2))],
+             ("SpecTxn", dict(Caps={1}, Depth=6 if quick else 7, SubIds={1}, MaxLen=1)),
+             ("SpecStreamsPre", dict(pre, Caps={1, 2}, Depth=4 if quick else 5)),
+             ("SpecTxnCore", dict(pre, Caps={1}, Depth=7 if quick else 8, InitLens={1}))],
+        C07=[("SpecTxn", dict(Caps={1, 16}, Depth=5 if quick else 6, SubIds={1})),
+             ("SpecTxnSmall", dict(pre, Caps={16}, Depth=6 if quick else 7)),
+             ("SpecTxnCore", dict(pre, Caps={16}, Depth=8 if quick else 9)),
+             ("SpecTxnCore", dict(pre, Caps={1}, Depth=7 if quick else 8, InitLens={1}))],
+        C08=[("SpecStreams", dict(Caps={1, 2}, Depth=6 if quick else 7, SubIds={1}, MaxLen=2)),
+             ("SpecStreamsPre", dict(pre, Caps={1, 2}, Depth=4 if quick else 5))],
         C17=[("SpecMut", dict(Caps={16}, Depth=4 if quick else 5, MaxLen=3, SubIds={1}))],
     )
     for j, (spec, over) in enumerate(plans[prop]):
@@ -406,7 +418,7 @@ def vec_pipeline(prop, tier, seed, work, t0):
     simcaps = dict(C05={16, 64}, C06={1, 2, 3, 5}, C07={1, 3, 16}, C08={1, 2, 3, 16}, C17={16})[prop]
     c = os.path.join(work, "GenSim.cfg")
     write_cfg(c, spec=simspec, constants=dict(MaxDecs=3, SubIds={1, 2, 3}, Caps=simcaps, MaxLen=6,
-                                              LagThenClosedLosesState=False, Depth=50),
+                                              LagThenClosedLosesState=False, Depth=50, InitLens={0}, PreSubs={0}),
               constraints=["BoundTree"], invariants=["PrintAtDepth"])
     k, _ = gen_behaviours("GenVec", c, work, beh, "sim", num=400 if quick else 20000, depth=51, seed=seed, tag="sim",
                           timeout=3000)
@@ -699,7 +711,7 @@ def tokens_pipeline(prop, tier, seed, work, t0):
     parts.append(("obs", b, ["obs-replay", b, None, "--nv", "3", "--track"], k1 + k2))
     # ---- vec layer
     b = os.path.join(work, "beh-vec.ndjson")
-    base = dict(MaxDecs=2, SubIds={1, 2}, MaxLen=2, LagThenClosedLosesState=False)
+    base = dict(MaxDecs=2, SubIds={1, 2}, MaxLen=2, LagThenClosedLosesState=False, InitLens={0}, PreSubs={0})
     k = 0
     for j, (spec, over) in enumerate([("SpecStreams", dict(Caps={1, 2}, Depth=5 if quick else 6)),
                                       ("SpecTxn", dict(Caps={1, 16}, Depth=5 if quick else 6, SubIds={1}))]):
@@ -709,7 +721,8 @@ def tokens_pipeline(prop, tier, seed, work, t0):
         gstates += r["distinct"]; gtrans += r["generated"]
         k += kk
     c = os.path.join(work, "GenVecSim.cfg")
-    write_cfg(c, spec="SpecAll", constants=dict(MaxDecs=3, SubIds={1, 2, 3}, Caps={1, 2, 3, 16}, MaxLen=6, LagThenClosedLosesState=False, Depth=50),
+    write_cfg(c, spec="SpecAll", constants=dict(MaxDecs=3, SubIds={1, 2, 3}, Caps={1, 2, 3, 16}, MaxLen=6, LagThenClosedLosesState=False, Depth=50,
+                                                InitLens={0}, PreSubs={0}),
               constraints=["BoundTree"], invariants=["PrintAtDepth"])
     kk, _ = gen_behaviours("GenVec", c, work, b, "sim", num=300 if quick else 10000, depth=51, seed=seed, tag="vs")
     parts.append(("vec", b, ["vec-replay", b, None, "--track"], k + kk))
